@@ -41,7 +41,7 @@ func (s *memMetaStore) Put(ctx context.Context, p peer.ID, v []byte) error {
 
 const (
 	c12RawKinds     = 12
-	c12HostileKinds = 30
+	c12HostileKinds = 34
 )
 
 func genC12(seed uint64, tier string) *Plan {
@@ -65,6 +65,16 @@ func genC12(seed uint64, tier string) *Plan {
 	p.Knobs["behaviour_weight"] = float64(-b2i(r.chance(0.5)))
 	p.Knobs["hb_ms"] = 1000
 	p.Knobs["workers"] = float64(r.rng(1, 2))
+	// protocol limits as tuning knobs: small values put the boundary cases within reach
+	p.Knobs["max_ihave_len"] = float64([]int{2, 3, 5, 5000}[r.intn(4)])
+	p.Knobs["max_ihave_msgs"] = float64([]int{1, 2, 10}[r.intn(3)])
+	p.Knobs["max_idw_len"] = float64([]int{1, 3, 10}[r.intn(3)])
+	p.Knobs["max_idw_msgs"] = float64([]int{1, 2, 1000}[r.intn(3)])
+	p.Knobs["max_pending_conns"] = float64([]int{1, 2, 4, 128}[r.intn(4)])
+	p.Knobs["connectors"] = float64(r.rng(1, 2))
+	p.Knobs["connect_block"] = float64(b2i(r.chance(0.6)))
+	p.Knobs["conn_timeout_ms"] = float64([]int{3000, 30000}[r.intn(2)])
+	p.Knobs["prune_peers"] = float64([]int{2, 16}[r.intn(2)])
 	genDegrees(r, p, 4)
 	add := func(op string, a ...int64) { p.Items = append(p.Items, Item{Op: op, A: a}) }
 	add("node-sub", 0)
@@ -596,6 +606,44 @@ func c12Hostile(w *nodeWorld, fp *fakePeer, kind int, x int64) *pb.RPC {
 		ob, _ := other.GetPublic().Raw()
 		m := &pb.Message{Data: w.mkData(8), Topic: &topic, From: []byte(fp.id), Seqno: r.bytes(8), Signature: r.bytes(64), Key: ob}
 		return rpcPub(m)
+	case 30: // IHAVE with exactly MaxIHaveLength unseen ids for a joined topic (budget boundary)
+		var ids []string
+		n := w.plan.ki("max_ihave_len", 5000)
+		if n > 200 {
+			n = 200
+		}
+		for i := 0; i < n; i++ {
+			ids = append(ids, fmt.Sprintf("u%d-%d-%d", x, i, r.intn(1<<30)))
+		}
+		return rpcIHave("t0", ids...)
+	case 31: // one more unseen id in the same heartbeat interval
+		return rpcIHave("t0", fmt.Sprintf("one-more-%d-%d", x, r.intn(1<<30)))
+	case 32: // PRUNE for a joined topic with many validly signed PX records (connection requests pile up)
+		var px []*pb.PeerInfo
+		for i := 0; i < r.rng(3, 20); i++ {
+			k := genKey(r, 0)
+			id, _ := peer.IDFromPrivateKey(k)
+			rec := peer.NewPeerRecord()
+			rec.PeerID = id
+			rec.Seq = 1
+			env, err := record.Seal(rec, k)
+			if err != nil {
+				continue
+			}
+			eb, _ := env.Marshal()
+			px = append(px, &pb.PeerInfo{PeerID: []byte(id), SignedPeerRecord: eb})
+		}
+		var prs []*pb.ControlPrune
+		for i := 0; i < r.rng(1, 6); i++ {
+			prs = append(prs, &pb.ControlPrune{TopicID: strp("t0"), Peers: px})
+		}
+		return &pb.RPC{Control: &pb.ControlMessage{Prune: prs}}
+	case 33: // IDONTWANT with exactly the per-message limit, repeated
+		var ids []string
+		for i := 0; i < w.plan.ki("max_idw_len", 10); i++ {
+			ids = append(ids, big(r.rng(1, 40)))
+		}
+		return &pb.RPC{Control: &pb.ControlMessage{Idontwant: []*pb.ControlIDontWant{{MessageIDs: ids}, {MessageIDs: ids}}}}
 	default: // extension handshake claiming everything + immediate partial
 		rpc := rpcExtensions(true, true)
 		rpc.Partial = &pb.PartialMessagesExtension{TopicID: &topic, GroupID: r.bytes(3), PartialMessage: r.bytes(10)}
